@@ -6,7 +6,7 @@ Scripts are lists of integers: [nslots, op, x, y, z, op, x, y, z, ...].
 M = 1000000007
 
 OPS = {"NEW": 0, "LINK": 1, "UNLINK": 2, "DROP": 3, "ARR": 4, "ARRSET": 5, "CHURN": 6, "SUM": 7, "GCFULL": 8,
-       "GCMINOR": 9, "STR": 10, "DEEP": 11, "PAIRS": 12, "CLOSURE": 13, "GLOBAL": 14, "SUMALL": 15, "KEEPCHURN": 16, "FILLARR": 17, "REFRESH": 18, "SNAP": 19, "DUO": 20, "STRCMP": 21}
+       "GCMINOR": 9, "STR": 10, "DEEP": 11, "PAIRS": 12, "CLOSURE": 13, "GLOBAL": 14, "SUMALL": 15, "KEEPCHURN": 16, "FILLARR": 17, "REFRESH": 18, "SNAP": 19, "DUO": 20, "STRCMP": 21, "TRACES": 22}
 
 
 class Node:
@@ -129,7 +129,7 @@ class World:
                 self.new_node(y)
         elif op == 7:
             self.out.append("sum %d %d" % (x % ns, self.checksum(self.slots[x % ns])))
-        elif op in (8, 9, 19):
+        elif op in (8, 9, 19, 22):
             pass
         elif op == 10:
             dst = self.slots[x % ns]
@@ -262,10 +262,10 @@ def generate(rng, max_ops=200, live_limit=256 * 1024, profile=None):
     if profile == "wide":
         return generate_wide(rng), profile
     weights = {
-        "mixed": dict(STRCMP=3, DUO=5, NEW=10, LINK=10, UNLINK=3, DROP=4, ARR=3, ARRSET=6, CHURN=4, SUM=6, GCFULL=1, GCMINOR=2, STR=2, DEEP=2, PAIRS=2, CLOSURE=2, GLOBAL=2, SUMALL=2, KEEPCHURN=1),
+        "mixed": dict(TRACES=1, STRCMP=3, DUO=5, NEW=10, LINK=10, UNLINK=3, DROP=4, ARR=3, ARRSET=6, CHURN=4, SUM=6, GCFULL=1, GCMINOR=2, STR=2, DEEP=2, PAIRS=2, CLOSURE=2, GLOBAL=2, SUMALL=2, KEEPCHURN=1),
         "links": dict(DUO=8, NEW=12, LINK=20, UNLINK=6, DROP=5, SUM=6, GCMINOR=2, GCFULL=1, SUMALL=2, CHURN=3),
         "arrays": dict(NEW=8, ARR=8, ARRSET=20, LINK=4, DROP=3, SUM=6, CHURN=3, GCMINOR=2, GCFULL=1, SUMALL=2, PAIRS=4),
-        "churn": dict(NEW=5, LINK=4, CHURN=14, KEEPCHURN=8, SUM=4, DROP=2, STR=5, STRCMP=5, SUMALL=1),
+        "churn": dict(NEW=5, LINK=4, CHURN=14, KEEPCHURN=8, SUM=4, DROP=2, STR=5, STRCMP=5, SUMALL=1, TRACES=4),
         "deep": dict(NEW=6, LINK=6, DEEP=10, SUM=4, CHURN=3, GCMINOR=1, CLOSURE=3),
         "interior": dict(DUO=10, NEW=8, PAIRS=10, CLOSURE=8, GLOBAL=6, LINK=6, SUM=6, DROP=3, CHURN=4, SUMALL=2, GCMINOR=2),
     }[profile]
@@ -312,6 +312,9 @@ def generate(rng, max_ops=200, live_limit=256 * 1024, profile=None):
             x = rng.choice([0, 0, 1, 1, 2])
         elif name == "DUO":
             z = rng.randrange(32)
+        elif name == "TRACES":
+            x = rng.choice([10, 1000, 30000, 60000])
+            y = rng.choice([0, 5, 40, 40])
         ops.append((name, x, y, z))
     for (name, x, y, z) in ops:
         # dry-run on a copy is expensive; run on the model and roll back by re-checking size
